@@ -182,8 +182,9 @@ impl Model {
                         Sum::Incomplete(None)
                     }
                     e => {
+                        // "accumulate ... until the one-shot parser succeeds": a definitive error is not a success, so the
+                        // fragments stay accumulated and defragmentation continues (the answer is the one-shot parser's error)
                         self.path = "continuation-error";
-                        self.unspecified = true;
                         e
                     }
                 }
